@@ -11,7 +11,9 @@ Inv == Cond("inv", <<1, -1>>, 0, 0, 0, 1, 2)
 Pen == Cond("pen", <<>>, 0, 0, 1, 1, 2)
 Ada == Cond("adapt", <<1, -1>>, 1, 0, 0, 1, 1)
 ValC == Cond("fit", <<3>>, 0, 0, 0, 1, 1)
-TrainSets == {<<Fit1>>, <<Fit2>>, <<Fit1, Pen, Inv>>, <<Inv, Pen>>, <<Ada>>, <<Fit2, Ada>>, <<Pen, Fit1>>, <<Ada, Inv, Pen>>, <<Fit1, Fit2>>}
+Zero == Cond("fit", <<2, -2>>, 1, 0, 0, 0, 1)             \* weight 0: monitored only, but evaluated once per step like every other
+TrainSets == {<<Fit1>>, <<Fit2>>, <<Fit1, Pen, Inv>>, <<Inv, Pen>>, <<Ada>>, <<Fit2, Ada>>, <<Pen, Fit1>>, <<Ada, Inv, Pen>>, <<Fit1, Fit2>>,
+              <<Fit1, Zero>>, <<Zero, Inv, Pen>>}
 Cfgs == {[a0 |-> a0, b0 |-> 0, k0 |-> 2, nl |-> 2, lrn |-> 1, lrd |-> lrd, mun |-> mun, mud |-> 2, ssize |-> ss, freq |-> fr,
           gn |-> 1, gd |-> 2, N |-> NSteps, train |-> tr, val |-> vl, val_interval |-> 2, ckint |-> ck, kill |-> kl] :
             a0 \in {1, -1}, lrd \in {4, 2}, mun \in {0, 1}, ss \in {0, 1, 2}, fr \in {1, 2}, tr \in TrainSets, vl \in {<<>>, <<ValC>>},
